@@ -22,6 +22,23 @@ def classes(v):
     return type(v).__name__
 
 
+def snap(m):
+    """both views of a container at every level: the item list and, per key, lookup and getall"""
+    def one(c):
+        keys = []
+        for k, _ in c:
+            if k not in keys:
+                keys.append(k)
+        per = []
+        for k in keys:
+            try:
+                per.append((k, repr(c[k]), repr(c.getall(k))))
+            except Exception as e:
+                per.append((k, "raised " + type(e).__name__))
+        return (repr(c), per, [one(v) for _, v in c if isinstance(v, OrderedMultiDict)])
+    return repr(one(m))
+
+
 def build(rng, cls, depth=0):
     n = rng.randrange(0, 5)
     items = []
@@ -82,8 +99,8 @@ def run(ctx):
         m = build(rng, cls)
         if cls is PVLModule and rng.random() < 0.5:
             m.errors = [3, 1]
-        snap = io.py_to_j(m) if cls is not OrderedMultiDict else json.dumps(repr(m))
-        srepr = repr(m)
+        srepr = snap(m)
+        prepr = repr(m)
         scls = classes(m)
         for name, fn in MECH.items():
             why = None
@@ -96,9 +113,9 @@ def run(ctx):
                 c = None
             stats[name + ":" + ("ok" if c is not None else "raised")] += 1
             if c is not None:
-                if repr(m) != srepr:
+                if snap(m) != srepr:
                     why = "%s changed the original" % name
-                elif not (c == m and m == c) or repr(c) != srepr:
+                elif not (c == m and m == c) or snap(c) != srepr:
                     why = "%s result is not equal to the original" % name
                 elif classes(c) != scls:
                     why = "%s changed a container class: %s vs %s" % (name, classes(c), scls)
@@ -108,15 +125,15 @@ def run(ctx):
                     # independence of the top level
                     for _ in range(3):
                         mutate_top(rng, c)
-                    if repr(m) != srepr:
+                    if snap(m) != srepr:
                         why = "changing the top level of the %s result showed through in the original" % name
                     else:
                         c2 = fn(m)
-                        keep = repr(c2)
+                        keep = snap(c2)
                         m2 = fn(m)       # a stand-in for the original that we may damage
                         for _ in range(3):
                             mutate_top(rng, m2)
-                        if repr(c2) != keep:
+                        if snap(c2) != keep:
                             why = "changing another copy showed through in a %s result" % name
                     if why is None and name in DEEP:
                         c3 = fn(m)
@@ -124,16 +141,16 @@ def run(ctx):
                             sub.append("deep", 1)
                         for l in nested_lists(c3):
                             l.append("deep")
-                        if repr(m) != srepr:
+                        if snap(m) != srepr:
                             why = "changing a nested level of the %s result showed through in the original" % name
                         # and vice versa
                         c4 = fn(m)
-                        keep = repr(c4)
+                        keep = snap(c4)
                         for pth, sub in nested_containers(m):
                             sub.append("deep", 1)
                         for l in nested_lists(m):
                             l.append("deep")
-                        if repr(c4) != keep and why is None:
+                        if snap(c4) != keep and why is None:
                             why = "changing a nested level of the original showed through in the %s result" % name
                         # restore the original for the next mechanism
                         for pth, sub in nested_containers(m):
@@ -141,9 +158,9 @@ def run(ctx):
                         for l in nested_lists(m):
                             l.pop()
             if why and bad is None:
-                bad = {"what": why, "mechanism": name, "class": cls.__name__, "container": srepr[:1500]}
+                bad = {"what": why, "mechanism": name, "class": cls.__name__, "container": prepr[:1500]}
         if i % 100 == 0 and len(samples) < 5:
-            samples.append({"class": cls.__name__, "container": srepr[:200]})
+            samples.append({"class": cls.__name__, "container": prepr[:200]})
     if bad:
         core.violation(ctx, "container", bad, True)
     elif not lean["ok"]:
